@@ -4,6 +4,7 @@ import (
 	"context"
 	"fmt"
 	"math/rand/v2"
+	"os"
 	"testing"
 	"time"
 
@@ -366,6 +367,9 @@ func c05DAOnce(t *testing.T, s *sim.Scn, ks []int, o *sim.Outcome) (fired []bool
 }
 
 func c05Run(t *testing.T, s *sim.Scn) *sim.Outcome {
+	if s.Cfg["whole"] == 1 {
+		return c05WholeRun(t, s)
+	}
 	once := c05Once
 	if s.Cfg["src"] == 1 {
 		once = c05DAOnce
@@ -402,6 +406,9 @@ func c05Run(t *testing.T, s *sim.Scn) *sim.Outcome {
 }
 
 func c05Gen(r *rand.Rand, tier string) *sim.Scn {
+	if r.IntN(8) == 0 || os.Getenv("VERIF_C05_WHOLE_ONLY") != "" {
+		return c05WholeGen(r, tier)
+	}
 	n := 2 + r.IntN(6)
 	if tier == "thorough" {
 		n = 2 + r.IntN(14)
